@@ -61,8 +61,8 @@ theorem dispatchGen_full (req : Bool) (c : Cfg) {s₁ s₂ : St} (h : Nat) (cls 
         have hproj : o₁.proj = o₂.proj := Option.some.inj hp
         have hty : o₂.hdr.type = o₁.hdr.type := (congrArg (fun q => q.2.1) hproj).symm
         have hid : o₁.id = i := findObj_some_id hf₁
-        have ht₁ := hw₁.2 (h, i) hmem o₁ hf₁
-        have ht₂ := hw₂.2 (h, i) (he.2.1 ▸ hmem) o₂ hf₂
+        have ht₁ := typeOf_of_hdr (hw₁.2 (h, i) hmem o₁ hf₁)
+        have ht₂ := typeOf_of_hdr (hw₂.2 (h, i) (he.2.1 ▸ hmem) o₂ hf₂)
         simp only [ht₁, ht₂]
         have hsp₁ := typeInstance_spec Cfg.default s₁.memo o₁.hdr.type cls hw₁.1
         have hsp₂ := typeInstance_spec c s₂.memo o₂.hdr.type cls hw₂.1
@@ -157,27 +157,49 @@ theorem runCall_full (c : Cfg) (cl : Call) {s₁ s₂ : St}
       rw [hbody, hid]
       rcases hg : cl.guard o₁.body with _ | e
       · simp only
-        cases hu : cl.undef o₁.body
-        · simp only [Bool.false_eq_true, if_false]
-          rcases hh : cl.hard o₁.body with _ | e
+        have hh₁ := hw₁.2 _ hobj.2.1 o₁ hobj.2.2.1
+        have hh₂ := hw₂.2 _ (he.2.1 ▸ hobj.2.1) o₂ hobj.2.2.2
+        have hiA := innerAll_spec Cfg.default (cl.inner o₁.body) sA' hmA'
+        have hiB := innerAll_spec c (cl.inner o₁.body) sB' hmB'
+        rcases hinA : innerAll Cfg.default sA' (cl.inner o₁.body) with ⟨sA3, fA⟩
+        rcases hinB : innerAll c sB' (cl.inner o₁.body) with ⟨sB3, fB⟩
+        rw [hinA] at hiA; rw [hinB] at hiB
+        simp only at hiA hiB ⊢
+        have hf : fB = fA := by rw [hiA.1, hiB.1]
+        subst hf
+        have heA3 : Equiv sA3 sB3 := equiv_of_sameBut heA' hiA.2.1 hiB.2.1
+        have hwA3 : WF Cfg.default sA3 := ⟨hiA.2.2, hiA.2.1.hdrOK hwA'.2⟩
+        have hwB3 : WF c sB3 := ⟨hiB.2.2, hiB.2.1.hdrOK hwB'.2⟩
+        cases fB
+        · simp only
+          rw [← sitesFire_of_hdr hh₁ hh₂ (cl.sites o₁.body)]
+          rcases hsf : sitesFire o₁ (cl.sites o₁.body) with _ | e
           · simp only
-            exact ⟨.ok rfl, equiv_setBody _ _ heA', ⟨hmA', hdrOK_setBody _ _ hwA'.2⟩, ⟨hmB', hdrOK_setBody _ _ hwB'.2⟩⟩
-          · exact ⟨.raised, heA', hwA', hwB'⟩
-        · simp only [if_true]
-          exact ⟨.ub, heA', hwA', hwB'⟩
+            cases hu : cl.undef o₁.body
+            · simp only [Bool.false_eq_true, if_false]
+              rcases hh : cl.hard o₁.body with _ | e
+              · simp only
+                exact ⟨.ok rfl, equiv_setBody _ _ heA3, ⟨hwA3.1, hdrOK_setBody _ _ hwA3.2⟩, ⟨hwB3.1, hdrOK_setBody _ _ hwB3.2⟩⟩
+              · exact ⟨.raised, heA3, hwA3, hwB3⟩
+            · simp only [if_true]
+              exact ⟨.ub, heA3, hwA3, hwB3⟩
+          · simp only
+            exact ⟨orel_refuse c _ e, heA3, hwA3, hwB3⟩
+        · simp only
+          exact ⟨orel_refuse c _ _, heA3, hwA3, hwB3⟩
       · simp only
         exact ⟨orel_refuse c _ e, heA', hwA', hwB'⟩
 
 theorem hdrOK_alloc {cfg : Cfg} {s : St} (d : Nat) (ty : String) (b : Body) (hh : HdrOK cfg s) :
     HdrOK cfg { s with next := s.next + 1,
-                       heap := { id := s.next, hdr := headerInit cfg ty .heap, body := b } :: s.heap,
+                       heap := { id := s.next, hdr := headerInit cfg ty heapClass, body := b } :: s.heap,
                        live := (d, s.next) :: s.live } := by
   intro p hp o ho
   simp only [findObj_cons] at ho
   by_cases hpn : s.next = p.2
   · simp only [hpn, beq_self_eq_true, if_true] at ho
     rw [← Option.some.inj ho]
-    exact typeOf_headerInit cfg _ ty .heap b
+    rfl
   · have hb : (s.next == p.2) = false := by simpa using hpn
     simp only [hb, Bool.false_eq_true, if_false] at ho
     rcases List.mem_cons.mp hp with hp | hp
@@ -185,9 +207,9 @@ theorem hdrOK_alloc {cfg : Cfg} {s : St} (d : Nat) (ty : String) (b : Body) (hh 
     · exact hh p hp o ho
 
 theorem equiv_alloc {c₁ c₂ : Cfg} {s t : St} (d : Nat) (ty : String) (b : Body) (he : Equiv s t) :
-    Equiv { s with next := s.next + 1, heap := { id := s.next, hdr := headerInit c₁ ty .heap, body := b } :: s.heap,
+    Equiv { s with next := s.next + 1, heap := { id := s.next, hdr := headerInit c₁ ty heapClass, body := b } :: s.heap,
                    live := (d, s.next) :: s.live }
-          { t with next := t.next + 1, heap := { id := t.next, hdr := headerInit c₂ ty .heap, body := b } :: t.heap,
+          { t with next := t.next + 1, heap := { id := t.next, hdr := headerInit c₂ ty heapClass, body := b } :: t.heap,
                    live := (d, t.next) :: t.live } := by
   refine ⟨by simp only [he.1], by simp only [he.1, he.2.1], ?_⟩
   intro p hp
@@ -201,9 +223,9 @@ theorem equiv_alloc {c₁ c₂ : Cfg} {s t : St} (d : Nat) (ty : String) (b : Bo
     · exfalso; apply hpn; rw [hp]
     · exact he.2.2 p hp
 
-theorem runAlloc_full (c : Cfg) (d : Nat) (ty : String) (b : Body) (uses : List (Nat × String)) {s₁ s₂ : St}
+theorem runAlloc_full (c : Cfg) (d : Nat) (ty : String) (b : Body) (uses : List (Nat × String)) (mode : AMode) {s₁ s₂ : St}
     (he : Equiv s₁ s₂) (hw₁ : WF Cfg.default s₁) (hw₂ : WF c s₂) :
-    StepRel c (runAlloc Cfg.default d ty b uses s₁) (runAlloc c d ty b uses s₂) := by
+    StepRel c (runAlloc Cfg.default d ty b uses mode s₁) (runAlloc c d ty b uses mode s₂) := by
   have H2 := dispatchAll_full c uses he hw₁ hw₂
   unfold runAlloc
   generalize dispatchAll Cfg.default s₁ uses = q₁ at H2 ⊢
@@ -220,22 +242,24 @@ theorem runAlloc_full (c : Cfg) (d : Nat) (ty : String) (b : Body) (uses : List 
   | off hc => exact ⟨.off hc, heA, hwA, hwB⟩
   | ok _ =>
     simp only
-    have het := equiv_alloc (c₁ := Cfg.default) (c₂ := c) d ty b heA
-    have hhA := hdrOK_alloc d ty b hwA.2
-    have hhB := hdrOK_alloc d ty b hwB.2
-    refine ⟨.ok rfl, ?_, ⟨?_, ?_⟩, ⟨?_, ?_⟩⟩
-    · simp only [Cfg.default, if_true]
-      cases c.gc
-      · simp only [Bool.false_eq_true, if_false]; exact (gcSet_equiv _ _).symm.trans het
-      · simp only [if_true]; exact ((gcSet_equiv _ _).symm.trans het).trans (gcSet_equiv _ _)
-    · simp only [Cfg.default, if_true]; rw [memo_gcSet]; exact hmA
-    · simp only [Cfg.default, if_true]; exact hdrOK_gcSet _ hhA
-    · cases c.gc
-      · simp only [Bool.false_eq_true, if_false]; exact hmB
-      · simp only [if_true]; rw [memo_gcSet]; exact hmB
-    · cases c.gc
-      · simp only [Bool.false_eq_true, if_false]; exact hhB
-      · simp only [if_true]; exact hdrOK_gcSet _ hhB
+    have hsite : sitesFire { id := sB.next, hdr := headerInit c ty heapClass, body := b } ((ty ++ "_Assign", .self) :: elemSites "_Assign" b) =
+        sitesFire { id := sA.next, hdr := headerInit Cfg.default ty heapClass, body := b } ((ty ++ "_Assign", .self) :: elemSites "_Assign" b) :=
+      sitesFire_congr (by simp only [siteClass_self_headerInit]) _
+    rw [hsite]
+    rcases hsf : sitesFire { id := sA.next, hdr := headerInit Cfg.default ty heapClass, body := b }
+        ((ty ++ "_Assign", .self) :: elemSites "_Assign" b) with _ | e
+    · simp only
+      have het := equiv_alloc (c₁ := Cfg.default) (c₂ := c) d ty b heA
+      have hhA := hdrOK_alloc d ty b hwA.2
+      have hhB := hdrOK_alloc d ty b hwB.2
+      refine ⟨.ok rfl, ?_, ⟨?_, ?_⟩, ⟨?_, ?_⟩⟩
+      · exact ((register_equiv Cfg.default mode _ _).symm.trans het).trans (register_equiv c mode _ _)
+      · rw [memo_register]; exact hmA
+      · exact hdrOK_register Cfg.default mode _ hhA
+      · rw [memo_register]; exact hmB
+      · exact hdrOK_register c mode _ hhB
+    · simp only
+      exact ⟨orel_refuse c _ e, heA, hwA, hwB⟩
 
 theorem runDel_full (c : Cfg) (x : Nat) {s₁ s₂ : St}
     (he : Equiv s₁ s₂) (hw₁ : WF Cfg.default s₁) (hw₂ : WF c s₂) :
@@ -270,9 +294,17 @@ theorem runDel_full (c : Cfg) (x : Nat) {s₁ s₂ : St}
       simp only
       have heA' : Equiv sA' sB' := equiv_of_sameBut heA hs1 hs2
       have hid : o₂.id = o₁.id := (congrArg (fun q => q.1) hobj.1).symm
-      rw [hid]
-      exact ⟨.ok rfl, equiv_free x o₁.id _ _ heA', ⟨hmA', hdrOK_free x o₁.id _ (hs1.hdrOK hwA.2)⟩,
-        ⟨hmB', hdrOK_free x o₁.id _ (hs2.hdrOK hwB.2)⟩⟩
+      have hbody : o₂.body = o₁.body := (congrArg (fun q => q.2.2) hobj.1).symm
+      have hty : o₂.hdr.type = o₁.hdr.type := (congrArg (fun q => q.2.1) hobj.1).symm
+      have hh₁ := hw₁.2 _ hobj.2.1 o₁ hobj.2.2.1
+      have hh₂ := hw₂.2 _ (he.2.1 ▸ hobj.2.1) o₂ hobj.2.2.2
+      rw [hid, hbody, hty, ← sitesFire_of_hdr hh₁ hh₂]
+      rcases hsf : sitesFire o₁ ((o₁.hdr.type ++ "_Del", .self) :: elemSites "_Del" o₁.body ++ [("dealloc", .self)]) with _ | e
+      · simp only [hsf]
+        exact ⟨.ok rfl, equiv_free x o₁.id _ _ _ _ heA', ⟨hmA', hdrOK_free x o₁.id _ _ (hs1.hdrOK hwA.2)⟩,
+          ⟨hmB', hdrOK_free x o₁.id _ _ (hs2.hdrOK hwB.2)⟩⟩
+      · simp only [hsf]
+        exact ⟨orel_refuse c _ e, heA', ⟨hmA', hs1.hdrOK hwA.2⟩, ⟨hmB', hs2.hdrOK hwB.2⟩⟩
 
 /-- **One step, any outcome.** -/
 theorem step_full (c : Cfg) (op : Op) {s₁ s₂ : St}
@@ -280,9 +312,9 @@ theorem step_full (c : Cfg) (op : Op) {s₁ s₂ : St}
     StepRel c (step Cfg.default op s₁) (step c op s₂) := by
   unfold step
   rw [← view_eq_of_equiv he]
-  rcases hp : plan op s₁.view with cl | ⟨d, ty, b, uses⟩ | x | x | _ | o | e | _
+  rcases hp : plan op s₁.view with cl | ⟨d, ty, b, uses, mode⟩ | x | x | _ | o | e | _
   · exact runCall_full c cl he hw₁ hw₂
-  · exact runAlloc_full c d ty b uses he hw₁ hw₂
+  · exact runAlloc_full c d ty b uses mode he hw₁ hw₂
   · exact runDel_full c x he hw₁ hw₂
   · refine ⟨.ok rfl, ⟨he.1, by simp only [he.2.1], ?_⟩, ⟨hw₁.1, ?_⟩, ⟨hw₂.1, ?_⟩⟩
     · intro p hp'; exact he.2.2 p (List.mem_filter.mp hp').1
